@@ -393,6 +393,17 @@ def run(ck: Check):
             else:
                 frac = ck.rng.choice([0.25, 0.5, 0.75])
             c2 = refine_case(dict(c, mode="given", root_edge=False), i, frac)
+            if drv and idx % 4 == 0:
+                ws = [str(m), str(i), f2h(c2["times"][i + 1])]
+                for kk in ("lam", "mu", "psi", "rho"):
+                    ws += [f2h(x) for x in c[kk]]
+                ws += [f2h(x) for x in c["times"]]
+                rep = drv.ask("refine " + " ".join(ws)).split(" ")
+                if rep[0] != "bad-op":
+                    got = {rep[j]: [h2f(x) for x in rep[j + 1].split(",")] for j in range(0, len(rep), 2)}
+                    for kk in ("lam", "mu", "psi", "rho", "times"):
+                        if [f2h(x) for x in got[kk]] != [f2h(x) for x in c2[kk]]:
+                            ck.mismatch("refined grid (harness) differs from the Lean cutRates/cutTimes", {"field": kk, "harness": c2[kk], "model": got[kk]})
             if len(set(c2["times"])) == len(c2["times"]) and len(c2["lam"]) <= 9:
                 k2, v2 = impl_value(c2)
                 f2 = features(c2)
